@@ -56,6 +56,9 @@ CHECKS = {
  "C19": dict(technique="TLA+ I-spec Interrupt (issue / interrupted / re-issue loop with remaining-time accounting for sleep, fault injector, invariant Transparent, liveness Completes) model-checked by TLC; real SIGALRM storms (handler without SA_RESTART) and EINTR injected at every k-th invocation (k<=4) of clock_nanosleep / sem_wait / sem_open / shm_open into the real library; histories validated by TLC (InterruptTrace); socket calls under the same storms validated against SockAbs (SockTrace io)",
              text="For sleep, semaphore acquire, shared-memory lock and creation/opening of named IPC objects, each with 0..4 consecutive injected interruptions and under timer storms from 200us to 50ms, the API outcome must be that of the uninterrupted call: sleep returns 0 and not before the requested time (monotonic clock), acquire/lock return only with the unit taken, creation still succeeds; parked socket receivers / acceptors and timed receives under storms must still satisfy the socket P-spec (no interrupted-call error, timeouts still fire).",
              design_ref="3 C19", note="Trusted: " + TB + "; injected EINTR follows each call's own error convention; signals are delivered to the thread under test."),
+ "C18": dict(technique="TLA+ ledger P-spec AllocLedger (live blocks, refused allocation in the call in progress, call results as observed through the public API, quiescence) with a design-level non-vacuity check (a leaking variant must be rejected); 14 representative programs over all modules run once per allocation index k, refusing allocation k only and allocation k and all later ones, each in a forked child on the ASan+UBSan build with the user allocator table; every child's ledger trace validated by TLC (AllocTrace)",
+             text="The fault index is enumerated exhaustively for every program (about 300 allocations x 2 modes, plus the general rwlock and sim atomic builds): a child that dies (signal, sanitizer report) is rejected, a free of a block that is not live is rejected, a call that saw a refused allocation must return normally with the objects consistent and pre-existing state unchanged (checked through the public API by the program), and at the end of the program nothing allocated through the table may remain except residue the documentation names.",
+             design_ref="3 C18", note="Trusted: " + TB + "; programs in harness/drv_alloc.c are the coverage (evidence lists the public entry points they do not reach); library start-up/shutdown allocations are outside the ledger."),
 }
 NA = {
  "C17": "pure encode/decode fidelity against the platform's inet_pton/inet_ntop over all addresses: no state, transitions or histories for a TLA+ specification to constrain (DESIGN.md section 5)",
@@ -75,7 +78,7 @@ def main():
                 "evidence_file": "evidence/%s.json" % pid,
                 "replay_cmd_template": "./check %s --replay {path}" % pid,
                 "engine": "tlc-conformance",
-                "level_claimed": {"category": "model_checking", "text": c["text"], "design_ref": "DESIGN.md " + c["design_ref"]},
+                "level_claimed": {"category": c.get("category", "model_checking"), "text": c["text"], "design_ref": "DESIGN.md " + c["design_ref"]},
                 "level_note": c["note"],
                 "technique": c["technique"],
             })
